@@ -314,6 +314,7 @@ func TestC11(t *testing.T) {
 	r.Extra("sequence_length", L)
 	panickingReaders(t, r)
 	concurrentC11(t, r)
+	rawRaceC11(t, r)
 	r.Finish(t)
 }
 
@@ -544,6 +545,90 @@ func panickingReaders(t *testing.T, r *ev.Run) {
 				for _, v := range viol {
 					r.Violation(v[0], v[1], map[string]any{"impl": impl, "size": size, "how": how})
 				}
+			}
+		}
+	}
+}
+
+// rawRaceC11: readers and closers of one secret with no harness state shared between them (the counters and flags
+// the rounds above use inside callbacks order the goroutines and can hide unsynchronised accesses inside the
+// implementation from the race detector). Each goroutine keeps its findings to itself until it has finished.
+func rawRaceC11(t *testing.T, r *ev.Run) {
+	rounds := ev.Pick(60, 1500)
+	for _, impl := range []string{"protectedmemory", "memguard"} {
+		journal(fmt.Sprintf("C11 raw race pass impl=%s", impl))
+		fac := implFactory(impl)
+		for round := 0; round < rounds; round++ {
+			size := []int{1, 32, 4097}[round%3]
+			src := make([]byte, size)
+			for i := range src {
+				src[i] = byte(i*3 + round)
+			}
+			want := append([]byte(nil), src...)
+			s, err := fac.New(src)
+			if err != nil {
+				r.Violation("c11-create-failed:"+impl, err.Error(), nil)
+				return
+			}
+			const readers, closers = 4, 2
+			findings := make([]string, readers+closers)
+			var wg sync.WaitGroup
+			start := make(chan struct{})
+			for g := 0; g < readers; g++ {
+				g := g
+				wg.Add(1)
+				go func() {
+					defer wg.Done()
+					debug.SetPanicOnFault(true)
+					defer func() {
+						if p := recover(); p != nil {
+							findings[g] = fmt.Sprintf("c11-fault-in-reader|reader faulted: %v", p)
+						}
+					}()
+					<-start
+					for k := 0; k < 3; k++ {
+						ran, same := false, true
+						var err error
+						if k%2 == 0 {
+							err = s.WithBytes(func(b []byte) error { ran, same = true, bytes.Equal(b, want); return nil })
+						} else {
+							_, err = s.WithBytesFunc(func(b []byte) ([]byte, error) { ran, same = true, bytes.Equal(b, want); return nil, nil })
+						}
+						if !same {
+							findings[g] = "c11-reader-saw-other-bytes|a reader saw other bytes than the secret"
+						}
+						if err != nil && ran {
+							findings[g] = fmt.Sprintf("c11-reader-error|the callback ran and the access still returned %v", err)
+						}
+					}
+				}()
+			}
+			for g := 0; g < closers; g++ {
+				g := g
+				wg.Add(1)
+				go func() {
+					defer wg.Done()
+					<-start
+					if g == 1 {
+						runtime.Gosched()
+					}
+					if err := s.Close(); err != nil {
+						findings[readers+g] = fmt.Sprintf("c11-close-error|Close: %v", err)
+					}
+				}()
+			}
+			close(start)
+			wg.Wait()
+			r.Eval(1)
+			r.Count("raw_race_rounds", 1)
+			for _, f := range findings {
+				if f != "" {
+					sig, d, _ := strings.Cut(f, "|")
+					r.Violation(sig+":"+impl, fmt.Sprintf("%s raw round %d size %d: %s", impl, round, size, d), nil)
+				}
+			}
+			if !s.IsClosed() {
+				r.Violation("c11-not-closed-after-close:"+impl, fmt.Sprintf("%s raw round %d: IsClosed() is false after every Close returned", impl, round), nil)
 			}
 		}
 	}
